@@ -34,6 +34,7 @@ PROPS = {
     "C09": dict(level="exploration", lanes=[("hlmon", dict(runner="conc_retry")), ("hlmon", dict(runner="blockfam"))]),
     "C10": dict(level="exploration", lanes=[("hlmon", dict(runner="poisonfam")), ("hlmon", dict(runner="poisonsoak"))]),
     "C11": dict(level="fault_enumeration", lanes=[("hlmon", dict(runner="panicfam")), ("hlmon", dict(runner="conc_panic")), ("hlmon", dict(runner="seqfam"))]),
+    "C12": dict(level="fault_enumeration", lanes=[("hlmon", dict(runner="faultfam"))]),
     "C13": dict(level="exploration", lanes=[("hlmon", dict(runner="tryfam"))]),
     "C17": dict(level="exploration", lanes=[("hlmon", dict(runner="nonacqfam")), CONC]),
 }
